@@ -350,5 +350,50 @@ ASSUMPTIONS = ['mask strings: non-empty, no whitespace/quote/=/</backslash, cont
                'masking non-idempotent: password=abc def -> password= def -> password=; recorded as an observation in notes/C04.md)',
                'neutral surrounding text: whitespace-separated words without quotes or sanitize keys',
                'the whole-function statement is proved on a bounded family only (C04_mask_whole_bounded); the universal theorems are per pattern/rendering']
-LEVEL_TEXT = ''
-LEVEL_NOTE = ''
+
+def extra_checks(rng, tier):
+    """thorough tier: the larger bounded whole-function sweep (Model/C04_Sweep.family_thorough) checked by coqc
+    (kernel VM) in shards, outside the default build."""
+    if tier != 'thorough': return
+    import os, subprocess, resource
+    root = os.path.dirname(os.path.dirname(os.path.dirname(os.path.abspath(__file__))))
+    coq = os.path.join(root, 'coq'); d = os.path.join(root, 'build', 'C04_thorough')
+    os.makedirs(d, exist_ok=True)
+    n = 16
+    def unlimit():
+        try: resource.setrlimit(resource.RLIMIT_STACK, (resource.RLIM_INFINITY, resource.RLIM_INFINITY))
+        except Exception: pass
+    procs = []
+    for i in range(n):
+        f = os.path.join(d, 'C04_T%d.v' % i)
+        open(f, 'w').write('Require Import OV.Base.Bytes OV.Model.C04 OV.Model.C04_Spec OV.Model.C04_Sweep.\n'
+                           'Lemma thorough_shard_%d : forallb check_case (shard %d %d family_thorough) = true.\n'
+                           'Proof. vm_compute. reflexivity. Qed.\n' % (i, n, i))
+    pending = list(range(n)); running = {}; results = {}
+    jobs = int(os.environ.get('VERIF_JOBS', '8'))
+    while pending or running:
+        while pending and len(running) < jobs:
+            i = pending.pop(0)
+            running[i] = subprocess.Popen(['timeout', '1500', 'coqc', '-Q', coq, 'OV', os.path.join(d, 'C04_T%d.v' % i)],
+                                          stdout=subprocess.PIPE, stderr=subprocess.STDOUT, text=True, preexec_fn=unlimit, cwd=d)
+        for i, p in list(running.items()):
+            try:
+                out, _ = p.communicate(timeout=2)
+            except subprocess.TimeoutExpired:
+                continue
+            results[i] = (p.returncode, out); del running[i]
+    for i in range(n):
+        rc, out = results[i]
+        yield ('coq_thorough_sweep', {'op': 'coq_sweep', 'shard': i, 'of': n},
+               None if rc == 0 else 'thorough bounded sweep: shard %d/%d of family_thorough does not check: %s' % (i, n, out.strip()[-300:]))
+
+LEVEL_TEXT = ('Universal theorems (all messages / all keys over [a-z_] / all casings / all digit suffixes / all values of the class, any length): '
+              'the 35 documented keys are covered by the generated list; a message without a key is unchanged; every substitution of the function only '
+              'rewrites the text between its groups (frame); nine rendering theorems proved generically from the regenerated pattern TEMPLATES '
+              '(k=v, k="v", k=\'v\', k \'v\', --k v, <k>v</k>, "k": "v", k --flag v). The whole-function statement (all 35 keys x 12 substitutions in order, '
+              'value replaced exactly, idempotent) is proved on a BOUNDED family of 8 022 messages by kernel computation. The full statement is refuted by '
+              'the wildcard pattern (known finding K12, witness in Coq and replayed on the implementation); a second zone K14 (found here) is excluded too. '
+              'Two renderings (\'...k\': u\'v\' and the \'k\', \'--flag\', \'v\' command form) have no universal theorem (backtracking patterns): bounded + oracle only.')
+LEVEL_NOTE = ('Partial: the whole-function theorem is bounded; universal theorems are per pattern. Trusted: Coq kernel/vm_compute; translator gen_C04.py + regex_tr.py '
+              '(CPython re._parser, classes by CPython\'s matcher; concrete regexes proved equal to the templates at the keys); Base/Regex.v as the model of re '
+              '(validated each run against the module\'s compiled patterns); str.lower() table; secrets without backslash. No axioms (all Closed under the global context).')
